@@ -15,7 +15,15 @@ import (
 	"golang.org/x/tools/go/ssa/ssautil"
 )
 
-const repoRoot = "/repo"
+// repoRoot is /repo for every registered check; tools/selftest.sh may point it at a scratch clone (GVC_REPO) so that
+// the must-fail corpus can run while /repo itself is being edited.
+var repoRoot = func() string {
+	if v := os.Getenv("GVC_REPO"); v != "" {
+		return v
+	}
+	return "/repo"
+}()
+
 const modPath = "github.com/openGemini/openGemini"
 
 type World struct {
